@@ -139,6 +139,88 @@ pub fn variant(dbg: &str) -> String {
     dbg.chars().take_while(|c| c.is_alphanumeric()).collect()
 }
 
+/// `wo`: 0 `Font::save`, 1 `save_with_options` (two spaces, single quotes), 2 `save_with_options` (default options)
+pub fn save_result_opt(font: &Font, target: &Path, wo: u32) -> String {
+    use norad::{QuoteChar, WriteOptions};
+    let r = guarded(|| match wo {
+        1 => font.save_with_options(target, &WriteOptions::default().indent(WriteOptions::SPACE, 2).quote_char(QuoteChar::Single)),
+        2 => font.save_with_options(target, &WriteOptions::default()),
+        _ => font.save(target),
+    });
+    match r {
+        Ok(Ok(())) => "ok".to_string(),
+        Ok(Err(e)) => format!("err:{}", variant(&format!("{:?}", e))),
+        Err(_) => "panic".to_string(),
+    }
+}
+
+/// boundary values of font-info rules other than the ones `make_invalid` uses (validity is observed by `describe`)
+pub fn fontinfo_variant(f: &mut Font, n: u32) {
+    let angle = |f: &mut Font, x: f64, d: f64| {
+        let g = Guideline::new(Line::Angle { x, y: 0.0, degrees: d }, None, None, None);
+        f.font_info.guidelines.get_or_insert_with(Default::default).push(g);
+    };
+    match n {
+        1 => angle(f, 0.0, f64::INFINITY),
+        2 => angle(f, 0.0, 360.000001),
+        3 => {
+            // all legal: the save must go through
+            angle(f, 0.0, -0.0);
+            angle(f, 0.0, 360.0);
+            angle(f, 0.0, 0.0);
+        }
+        4 => angle(f, f64::NAN, 10.0),
+        5 => f.font_info.open_type_os2_selection = Some(vec![0]),
+        6 => f.font_info.open_type_os2_selection = Some(vec![7, 6]),
+        7 => f.font_info.open_type_os2_family_class = Some(norad::fontinfo::Os2FamilyClass { class_id: 200, subclass_id: 0 }),
+        8 => f.font_info.postscript_blue_values = Some(vec![1.0.into()]),
+        9 => {
+            let id = norad::Identifier::new("dup").unwrap();
+            for _ in 0..2 {
+                let g = Guideline::new(Line::Horizontal(1.0), None, None, Some(id.clone()));
+                f.font_info.guidelines.get_or_insert_with(Default::default).push(g);
+            }
+        }
+        10 => {
+            let g = Guideline::new(Line::Vertical(f64::NAN), None, None, None);
+            f.font_info.guidelines.get_or_insert_with(Default::default).push(g);
+        }
+        11 => f.font_info.open_type_head_created = Some("2020/01/01 24:00:00".into()),
+        12 => f.font_info.open_type_head_created = Some("2020/12/31 23:59:59".into()),
+        _ => {}
+    }
+}
+
+/// other shapes of the groups rule; validity by construction (1-4 invalid, 5 valid)
+pub fn groups_variant(f: &mut Font, tr: &mut Track, n: u32) {
+    let nm = |s: &str| Name::new(s).unwrap();
+    match n {
+        1 => {
+            f.groups.insert(nm("public.kern2.x"), vec![nm("q")]);
+            f.groups.insert(nm("public.kern2.y"), vec![nm("q")]);
+            tr.gv_bad = true;
+        }
+        2 => {
+            f.groups.insert(nm("public.kern1."), vec![]);
+            tr.gv_bad = true;
+        }
+        3 => {
+            f.groups.insert(nm("public.kern2."), vec![nm("z")]);
+            tr.gv_bad = true;
+        }
+        4 => {
+            f.groups.insert(nm("public.kern1.twice"), vec![nm("q"), nm("q")]);
+            tr.gv_bad = true;
+        }
+        5 => {
+            f.groups.insert(nm("public.kern1.l"), vec![nm("q")]);
+            f.groups.insert(nm("public.kern2.r"), vec![nm("q")]);
+            f.groups.insert(nm("plain"), vec![nm("q"), nm("q")]);
+        }
+        _ => {}
+    }
+}
+
 pub fn save_result(font: &Font, target: &Path) -> String {
     match guarded(|| font.save(target)) {
         Ok(Ok(())) => "ok".to_string(),
